@@ -93,6 +93,12 @@ fn build_staged(cx: &mut Cx, lang: &'static str, recs: &[Rec], limit: usize, q: 
             }
             1 => {
                 let _ = st.search(q);
+                // ... and a word many of the records added so far share
+                if next > 0 {
+                    let w: String = recs[cx.rng.below(next)].1.split(|c: char| !c.is_alphanumeric()).next().unwrap_or("").to_string();
+                    let _ = st.search(&w);
+                    let _ = st.search(&w.chars().take(2).collect::<String>());
+                }
             }
             2 | 3 => st.store.limit = *cx.rng.pick(&choices),
             _ => {
@@ -493,8 +499,19 @@ impl Ranking {
         };
         for qk in 0..3 {
             let q = if similar { similar_query(&mut cx.rng, lang, &family) } else { rank_query(&mut cx.rng, lang, &st.store.lang, &recs) };
-            // a store with a past is asked the empty query first (the list its past searches may have cached)
-            let q = if staged && qk == 0 { String::new() } else { q };
+            // a store with a past is asked the empty query first (the list its past searches may have cached), then a
+            // spelling with the first two letters swapped (it matches short words without sharing a gram with them)
+            let q = if staged && qk == 0 {
+                String::new()
+            } else if staged && qk == 1 {
+                let mut w: Vec<char> = recs[cx.rng.below(recs.len())].1.split(|c: char| !c.is_alphanumeric()).next().unwrap_or("ab").chars().collect();
+                if w.len() >= 2 {
+                    w.swap(0, 1);
+                }
+                s(&w)
+            } else {
+                q
+            };
             cx.ctx(format!("C07 lang={} recs={:?} limit={} q={:?}", lang, recs, limit, q));
             if let Some(o) = &other {
                 // the same records and query under another language, on this thread, right before the judged search
@@ -676,6 +693,9 @@ impl Ranking {
             pairs.push(("adjacent>gap", format!("{} {}", u, v), format!("{} {} {}", u, v, x), format!("{} {} {}", u, x, v)));
             pairs.push(("first>second", u.clone(), format!("{} {}", u, x), format!("{} {}", x, u)));
             for (rule, q, better, worse) in pairs {
+                if cx.rng.chance(1, 6) {
+                    self.rule_crowd_case(cx, lang, rule, &q, &better, &worse);
+                }
                 for order in 0..2 {
                     for rmode in 0..2 {
                         let special = [0usize, 1, 255, 256, 65535, 65536, (1 << 24) - 1, 1 << 24, 1 << 30, (1usize << 31) - 1];
@@ -775,6 +795,39 @@ impl Ranking {
         }
     }
 
+    /// The same rule on a store that holds each of the two titles several times (other ids, other ratings), under a
+    /// limit smaller than the store: every copy of the better title outranks every copy of the worse one, so the list
+    /// starts with min(limit, copies) better ones.
+    fn rule_crowd_case(&self, cx: &mut Cx, lang: &'static str, rule: &str, q: &str, better: &str, worse: &str) {
+        let nb = cx.rng.range(2, 12);
+        let nw = cx.rng.range(4, 30);
+        // (never more than ten times the limit: beyond that the library does not promise to look at every record)
+        let limit = (*cx.rng.pick(&[1usize, 2, 3, 5, 10])).max((nb + nw + 9) / 10);
+        let mut recs: Vec<Rec> = vec![];
+        for i in 0..nb {
+            recs.push((1 + i, better.to_string(), cx.rng.below(1usize << 31)));
+        }
+        for i in 0..nw {
+            recs.push((1000 + i, worse.to_string(), cx.rng.below(1usize << 31)));
+        }
+        cx.rng.shuffle(&mut recs);
+        cx.ctx(format!("C08 crowd {} lang={} q={:?} better={:?} x{} worse={:?} x{} limit={}", rule, lang, q, better, nb, worse, nw, limit));
+        let st = St::build_sentinel(lang, &recs, limit);
+        let got = st.search_ids(q);
+        cx.eval();
+        cx.count("rule cases on stores with several copies of both titles");
+        let want = limit.min(nb);
+        let lead = got.iter().take_while(|id| **id < 1000).count();
+        if lead < want {
+            cx.fail_sig(
+                "ranking-rule",
+                format!("ranking-rule:{}", rule.replace(' ', "_")),
+                json!({"rule": rule, "lang": lang, "query": q, "better_title": better, "copies_of_better": nb, "worse_title": worse, "copies_of_worse": nw, "limit": limit,
+                       "records": recs, "got_ids": got, "why": format!("the list should start with {} copies of the better title (ids below 1000), it starts with {}", want, lead)}),
+            );
+        }
+    }
+
     fn rule_case(&self, cx: &mut Cx, lang: &'static str, rule: &str, q: &str, better: &str, worse: &str, rb: usize, rw: usize, order: usize) {
         let mut recs: Vec<Rec> = if order == 0 { vec![(1, better.to_string(), rb), (2, worse.to_string(), rw)] } else { vec![(2, worse.to_string(), rw), (1, better.to_string(), rb)] };
         if cx.rng.chance(1, 4) {
@@ -831,7 +884,9 @@ impl Ranking {
         let mk = |rng: &mut Rng, i: usize| -> Rec {
             // one title in six starts with characters that belong to no word (they count in the code-point order of the title)
             let lead = if rng.chance(1, 6) { *rng.pick(&[" ", "'", "(", "- ", "\u{bf}", "\"", "#", "\u{2026}", "  "]) } else { "" };
-            let t = format!("{}{}{}{}{}", lead, common, rng.pick(&words), if rng.chance(1, 2) { " " } else { "" }, if rng.chance(1, 2) { *rng.pick(&words) } else { "" });
+            // ... and one in six ends with such characters (a title and its whitespace-extended twin are different titles)
+            let trail = if rng.chance(1, 6) { *rng.pick(&[" ", "  ", "\t", "\n", " .", "!"]) } else { "" };
+            let t = format!("{}{}{}{}{}{}", lead, common, rng.pick(&words), if rng.chance(1, 2) { " " } else { "" }, if rng.chance(1, 2) { *rng.pick(&words) } else { "" }, trail);
             (i, t, (if distinct { i * 3 + rng.below(3) } else { rng.below(3) }) * rating_scale + rating_offset)
         };
         let mut recs: Vec<Rec> = (0..n).map(|i| mk(&mut cx.rng, i)).collect();
@@ -998,7 +1053,7 @@ impl Prop for Ranking {
         match self.0 {
             Which::Verdicts => vec![("truncated (more matches than limit)", 200, 2000), ("beyond the 10x cap (soundness only)", 100, 1000), ("limit 0", 50, 500), ("selection buffer refilled (matches >= 2*limit)", 100, 1000), ("store with tied ratings (set comparison)", 50, 500), ("empty query", 50, 500), ("corpus-store searches", 100, 2000), ("corpus-store searches compared with the unlimited corpus store", 10, 200), ("large stores (limit 50-200)", 400, 8000), ("large stores whose match count is an exact multiple of the limit", 20, 400), ("stores of more than 2048 records", 8, 160), ("stores of 66-260 records", 300, 3000), ("stores built in stages with searches and limit changes in between", 3000, 30000), ("configurations whose reference stores live on threads of their own", 1500, 15000), ("stores of 33 000 - 140 000 records with one title", 8, 48), ("stores of exactly 10*limit records sharing one word", 100, 1000)],
             Which::Order => vec![("pair stores", 2000, 20000), ("permuted stores", 2000, 20000), ("searches with >= 2 hits", 300, 3000), ("truncated lists compared across permutations", 30, 300), ("stores of similar words", 500, 5000), ("pairs involving a hit ranked 7th or lower", 300, 3000), ("large stores (limit 50-200)", 200, 4000), ("stores of more than 2048 records", 4, 80), ("stores with ratings in [2^31, 2^32)", 200, 2000), ("stores with ratings spread over the whole usize range", 100, 1000), ("configurations whose reference stores live on threads of their own", 200, 2000), ("stores built in stages with searches and limit changes in between", 300, 3000), ("stores shadowed by a store of another language on the same thread", 500, 5000)],
-            Which::Rules => vec![("rule exact>typo", 500, 5000), ("rule both>one", 500, 5000), ("rule prefix: exact>tail", 500, 5000), ("rule adjacent>gap", 500, 5000), ("rule first>second", 500, 5000), ("rule identical titles: rating decides", 300, 3000), ("rule equal rating: shorter title first", 300, 3000), ("rule function word: content word first", 1000, 10000), ("u made of two function words run together", 300, 3000), ("rule cases with a third, unrelated record", 20000, 200000), ("identical titles with ratings 1-3 apart", 1000, 10000), ("tails of 13-70 letters", 500, 5000), ("u tagged with a part of speech that is not a function-word kind", 150, 1500)],
+            Which::Rules => vec![("rule exact>typo", 500, 5000), ("rule both>one", 500, 5000), ("rule prefix: exact>tail", 500, 5000), ("rule adjacent>gap", 500, 5000), ("rule first>second", 500, 5000), ("rule identical titles: rating decides", 300, 3000), ("rule equal rating: shorter title first", 300, 3000), ("rule function word: content word first", 1000, 10000), ("u made of two function words run together", 300, 3000), ("rule cases with a third, unrelated record", 20000, 200000), ("identical titles with ratings 1-3 apart", 1000, 10000), ("tails of 13-70 letters", 500, 5000), ("u tagged with a part of speech that is not a function-word kind", 150, 1500), ("rule cases on stores with several copies of both titles", 5000, 50000)],
             Which::Empty => vec![("searches after further adds", 1000, 10000), ("truncated lists with tied ratings", 500, 5000), ("stores with distinct ratings", 500, 5000), ("limit 0", 100, 1000), ("stores of 13-60 records", 1000, 10000), ("stores whose titles share a prefix of 20-40 characters", 1500, 15000), ("stores with adjacent ratings above 2^24", 1000, 10000), ("searches after a limit change", 1000, 10000), ("adds under a temporarily lowered limit", 1000, 10000), ("empty-query searches right after a search with words", 5000, 50000)],
         }
     }
